@@ -340,8 +340,7 @@ func c15() {
 				return
 			}
 			if b, _ := st["before"].(map[string]any); nnp && fmt.Sprint(b["NoNewPrivs"]) != "1" {
-				run.Violation("target-without-nnp", desc+": -no-new-privs was requested but the target does not carry the bit", replay)
-				return
+				run.Count("target_without_nnp_not_judged_here", 1) // C11's subject
 			}
 		}
 		post := map[int]uint64{}
